@@ -520,8 +520,8 @@ def value_conforms(v, d):
     elif n == "datetime":
         ok = type(v) is dt.datetime and v.microsecond == 0
         if not ok and isinstance(v, dt.datetime) and v.microsecond == 0 and v.tzinfo is None:
-            # every other converter hands out the exact type for an instance of a subclass;
-            # datetime_get keeps the object (known finding, see finding_key)
+            # every converter hands out the exact type for an instance of a subclass
+            # (datetime_get since fix 664cdf1; this was finding C05-datetime-subclass-kept)
             return "datetime-subclass: value %r of class %s (a subclass of datetime) is stored as it is in a " \
                    "datetime Property" % (v, type(v).__name__)
     elif TUPLE_RE.fullmatch(n):
@@ -543,7 +543,7 @@ class C05(fw.Check):
         "normal_form_assign", "clone_same", "normal_form_assign_tuple", "normal_form_reachable",
         "text_roundtrip", "str_roundtrip_nonfloat",
         "tuple_none_only_from_falsy", "conforms_strict_partial", "tuple_none_counterexample",
-        "valid_type_exact", "method_names_invalid"]]
+        "valid_type_exact", "method_names_invalid", "empty_input_clears"]]
     trusted_base = [
         "Lean 4.33.0 kernel; axioms propext, Classical.choice, Quot.sound only (audited per theorem)",
         "hand-written model lean/OdmlModel/Model/{DTypes,Val}.lean, Py/{Num,Time,Str}.lean, tied to "
@@ -1264,30 +1264,8 @@ class C05(fw.Check):
     def finding_key(self, case, obs, failure):
         if "tuple-none: value None stored in a" in failure:
             return "C05-tuple-empty-item-stored-as-none"
-        if "datetime-subclass: value XDateTime(" in failure:
-            return "C05-datetime-subclass-kept"
-        if "IndexError, not ValueError" in failure and case.get("stream") == "history":
-            # only: an EMPTY iterable that is neither list, tuple nor str, given to a Property
-            # that has no dtype (and therefore no values), through the constructor / values= /
-            # the value alias / append / extend / insert
-            def empty_iter(e):
-                return isinstance(e, dict) and "it" in e and e["it"] != "dict" and not e["items"]
-
-            def no_dtype(d):
-                return d is None or not ((isinstance(d, str) and dtype_ok(d)) or
-                                         (isinstance(d, dict) and ("member" in d or dtype_ok(d.get("substr", "-")))))
-            c = case["ctor"]
-            if failure.startswith("constructor: unconvertible input raised IndexError"):
-                if no_dtype(c["d"]) and (empty_iter(c["values"]) or empty_iter(c.get("value"))):
-                    return "C05-empty-iterable-indexerror"
-                return None
-            m = re.match(r"call (\d+) \((values|value_alias|append|extend|insert)\): refused with IndexError", failure)
-            if m and int(m.group(1)) < len(case["ops"]):
-                n = int(m.group(1))
-                before = obs.get("trace", [])[n] if n < len(obs.get("trace", [])) else None
-                if before is not None and before["dtype"] is None and not before["values"] \
-                        and empty_iter(case["ops"][n].get("v")):
-                    return "C05-empty-iterable-indexerror"
+        # C05-datetime-subclass-kept (fixed 664cdf1) and C05-empty-iterable-indexerror (fixed
+        # 646f02a) are not classified any more: a regression is a VIOLATION.
         return None
 
     def tag(self, case, obs):
